@@ -206,7 +206,7 @@ def body(ctx):
     pfx = trees.readout_prefixes(ctx, trees.discover_prefixes(ctx), prelude)
     gid = trees.collision_groups(units)
     byname = {u.name: u for u in units}
-    ntrees = 20000 if ctx.thorough else 400
+    ntrees = 8000 if ctx.thorough else 400
     depth = 4 if ctx.thorough else 3
     ts = []
     skipped = 0
